@@ -18,7 +18,12 @@ def main():
         print("repo dirty, refusing:", st); return 2
     r = sh(f"git -C {REPO} apply {patch}")
     if r.returncode:
-        print("patch does not apply:", r.stderr); return 2
+        r = sh(f"git -C {REPO} apply -C1 --recount {patch}")
+    if r.returncode:
+        r = sh(f"cd {REPO} && patch -p1 --binary -F3 --no-backup-if-mismatch < {patch}")
+        if r.returncode:
+            sh(f"git -C {REPO} checkout -- .")
+            print("patch does not apply:", r.stdout[-300:], r.stderr[-300:]); return 2
     try:
         if demo:
             d = sh(f"PYTHONPATH={REPO} /venv/bin/python {demo}", cwd="/tmp")
